@@ -325,7 +325,13 @@ pub fn gen_bracket(rng: &mut Rng, inner_depth: usize) -> G {
     if rng.chance(1, 2) { pairs.reverse(); }
     let opens: Vec<u32> = pairs.iter().map(|p| p.0).collect();
     let closes: Vec<u32> = pairs.iter().map(|p| p.1).collect();
-    let abort: Vec<u32> = match rng.below(3) { 0 => vec![], 1 => vec![5], _ => vec![4, 5] };
+    // (the abort predicate may also accept one of the bracket tokens themselves, as the library's own
+    // test grammar does with its close bracket: brackets are classified before the abort test)
+    let abort: Vec<u32> = match rng.below(5) {
+        0 => vec![], 1 => vec![5], 2 => vec![4, 5],
+        3 => vec![*rng.pick(&closes)],
+        _ => vec![5, *rng.pick(&[6u32, 7, 8, 9, 10, 11])],
+    };
     let inner = match rng.below(4) {
         0 => G::Probe(1),
         1 => G::Right(Box::new(G::Probe(1)), Box::new(gen_peg(rng, inner_depth))),
